@@ -982,6 +982,20 @@ pub fn family_recharge() -> Vec<PProblem> {
     out
 }
 
+/// F-long50: one long tour (44 single jobs and three pickup-delivery jobs whose delivery lies "before" the pickup on the
+/// way) so that the evaluator's SAMPLED leg selection is used (more than 48 legs for single jobs, 32 for multi jobs).
+pub fn family_long50() -> Vec<PProblem> {
+    use TaskKind::*;
+    let mut jobs: Vec<PJob> = (0..44).map(|i| job(&format!("d{i}"), vec![task(Delivery, vec![place(1 + i % 4, 1., &[], None)], &[1])])).collect();
+    for (i, (from, to)) in [(4usize, 1usize), (3, 1), (4, 2)].iter().enumerate() {
+        jobs.push(job(&format!("m{i}"), vec![task(Pickup, vec![place(*from, 1., &[], Some("p"))], &[1]), task(Delivery, vec![place(*to, 1., &[], Some("d"))], &[1])]));
+    }
+    let mut s = shift(ShiftKind::Closed);
+    s.end = Some((0, 5000.));
+    let v = vehicle_type("v", 2, &[60], vec![s]);
+    vec![base("long50".to_string(), jobs, vec![v]).fit_matrices()]
+}
+
 /// F-mixed10: ten jobs of every kind the oracle replays fully, three vehicles of two types, reloads, an optional break,
 /// skills, a relation: solved with many generations so that every search operator gets its turn on a rich problem.
 pub fn family_mixed10() -> Vec<PProblem> {
